@@ -128,11 +128,7 @@ impl<T: Qcow2IoOps> Qcow2Dev<T> {
             crate::verif::probe("evict:dirty-l2-slices");
             log::warn!("add_l2_slice: cache eviction, slices {}", to_kill.len());
             // figure exact dependency on refcount cache & reftable entries
-            self.flush_refcount().await?;
-            self.flush_cache_entries(to_kill).await?;
-            // A clean slice is taken to be on disk when the l1 block pointing
-            // to its table is written later, so sync this write-back too.
-            self.call_fsync(0, usize::MAX, 0).await?;
+            self.flush_cache_entries(to_kill, true).await?;
         }
         Ok(entry)
     }
@@ -182,9 +178,17 @@ impl<T: Qcow2IoOps> Qcow2Dev<T> {
         }
     }
 
+    ///
+    /// The slices stay dirty until they have been written *and* synced:
+    /// everybody else takes a slice that isn't dirty for being on disk.
+    ///
+    /// `refcount_first` is for l2 slices: once they are locked against new
+    /// mappings, the refcounts their mappings depend on are flushed before
+    /// the slices are written.
     pub(crate) async fn flush_cache_entries<B: Table>(
         &self,
         v: Vec<(usize, AsyncLruCacheEntry<AsyncRwLock<B>>)>,
+        refcount_first: bool,
     ) -> Qcow2Result<()> {
         let info = &self.info;
         let tv = &v;
@@ -208,6 +212,7 @@ impl<T: Qcow2IoOps> Qcow2Dev<T> {
         // from in-flight during discarding new cluster.
         //
         let mut cache_vec = Vec::new();
+        let mut flushing = Vec::new();
 
         log::info!("flush caches: count {}", v.len());
 
@@ -221,9 +226,9 @@ impl<T: Qcow2IoOps> Qcow2Dev<T> {
                     crate::verif::probe("fce:wait-slice-read");
                     let cache = e.value().read().await;
 
-                    // clearing dirty now since cache update won't happen now,
-                    // and dirty is only used for flushing cache.
-                    e.set_dirty(false);
+                    // no cache update can happen from now on (it needs the
+                    // write lock); dirty is cleared at the end
+                    flushing.push(e);
 
                     match cache.get_offset() {
                         Some(cache_off) => {
@@ -274,24 +279,29 @@ impl<T: Qcow2IoOps> Qcow2Dev<T> {
             }
         }
 
-        // Whatever fails below, the slices picked up here were marked clean
-        // above and have to become dirty again, or they are never written.
-        let redirty = |this: &Self| {
-            for (_, e) in tv {
-                e.set_dirty(true);
-            }
-            this.mark_need_flush(true);
-        };
+        if cache_vec.is_empty() {
+            return Ok(());
+        }
 
-        let res = futures::future::join_all(f_vec).await;
-        if let Some(Err(err)) = res.into_iter().find(|r| r.is_err()) {
+        let mut res = Ok(());
+        if refcount_first {
+            // The slices are locked against new mappings now: whatever
+            // refcount their mappings depend on goes to disk first.  (Boxed:
+            // flush_refcount() gets back here for the refblock slices.)
+            res = Box::pin(self.flush_refcount()).await;
+        }
+        if res.is_ok() {
+            let zeroed = futures::future::join_all(f_vec).await;
+            if let Some(Err(err)) = zeroed.into_iter().find(|r| r.is_err()) {
+                res = Err(err);
+            }
+        }
+        if let Err(err) = res {
             // a new cluster could not be zeroed: it stays new (zeroing it
             // again is harmless, nothing has been written into it yet)
             for locked_cls in cluster_map.values_mut() {
                 **locked_cls = false;
             }
-            drop(cache_vec);
-            redirty(self);
             return Err(err);
         }
 
@@ -329,10 +339,14 @@ impl<T: Qcow2IoOps> Qcow2Dev<T> {
         for r in res {
             if r.is_err() {
                 eprintln!("cache slice write failed {r:?}\n");
-                drop(cache_vec);
-                redirty(self);
                 return r;
             }
+        }
+
+        // only now the slices count as flushed
+        self.call_fsync(0, usize::MAX, 0).await?;
+        for e in flushing {
+            e.set_dirty(false);
         }
 
         //each cache's read lock drops here
@@ -365,6 +379,7 @@ impl<T: Qcow2IoOps> Qcow2Dev<T> {
         cache: &AsyncLruCache<usize, AsyncRwLock<C>>,
         start: usize,
         end: usize,
+        refcount_first: bool,
     ) -> Qcow2Result<bool> {
         let entries = cache.get_dirty_entries(start, end);
 
@@ -376,7 +391,7 @@ impl<T: Qcow2IoOps> Qcow2Dev<T> {
                 end,
             );
 
-            self.flush_cache_entries(entries).await?;
+            self.flush_cache_entries(entries, refcount_first).await?;
             Ok(true)
         } else {
             Ok(false)
@@ -419,6 +434,7 @@ impl<T: Qcow2IoOps> Qcow2Dev<T> {
         rt: &A,
         cache: &AsyncLruCache<usize, AsyncRwLock<B>>,
         key_fn: F,
+        refcount_first: bool,
     ) -> Qcow2Result<bool>
     where
         F: Fn(u64) -> usize,
@@ -430,10 +446,9 @@ impl<T: Qcow2IoOps> Qcow2Dev<T> {
             let end = key_fn(((idx + 1) as u64) << bs_bits);
 
             let res = async {
-                if self.flush_cache(cache, start, end).await? {
-                    // order cache flush and the upper layer table
-                    self.call_fsync(0, usize::MAX, 0).await?;
-                }
+                // (the slices are synced by the time this returns, which
+                // orders them before the upper layer table)
+                self.flush_cache(cache, start, end, refcount_first).await?;
                 self.flush_table(rt, idx << bs_bits, 1 << bs_bits).await
             }
             .await;
@@ -446,9 +461,7 @@ impl<T: Qcow2IoOps> Qcow2Dev<T> {
             Ok(false)
         } else {
             // flush cache without holding top table read lock
-            if self.flush_cache(cache, 0, usize::MAX).await? {
-                self.call_fsync(0, usize::MAX, 0).await?;
-            }
+            self.flush_cache(cache, 0, usize::MAX, refcount_first).await?;
             Ok(true)
         }
     }
@@ -477,15 +490,22 @@ impl<T: Qcow2IoOps> Qcow2Dev<T> {
 
     //// flush refcount table and block dirty data to disk
     pub(crate) async fn flush_refcount(&self) -> Qcow2Result<()> {
+        // Whoever gets here second must not return before the first one is
+        // done: it finds the dirty reftable block taken already, and the
+        // mappings it writes next need that block on disk too.
+        let _lock = self.refcount_flush_lock.lock().await;
         let mut reftable_written = false;
         loop {
             #[cfg(qcow2_rs_verif)]
             crate::verif::probe("flush_refcount:wait-rt-read");
             let rt = &*self.reftable.read().await;
             let done = self
-                .flush_meta_generic(rt, &self.refblock_cache, |off| {
-                    self.rb_slice_key_of_rt_off(off)
-                })
+                .flush_meta_generic(
+                    rt,
+                    &self.refblock_cache,
+                    |off| self.rb_slice_key_of_rt_off(off),
+                    false,
+                )
                 .await?;
             if done {
                 break;
@@ -505,7 +525,12 @@ impl<T: Qcow2IoOps> Qcow2Dev<T> {
     pub(crate) async fn flush_mapping(&self, l1: &L1Table) -> Qcow2Result<()> {
         loop {
             let done = self
-                .flush_meta_generic(l1, &self.l2cache, |off| self.l2_slice_key_of_l1_off(off))
+                .flush_meta_generic(
+                    l1,
+                    &self.l2cache,
+                    |off| self.l2_slice_key_of_l1_off(off),
+                    true,
+                )
                 .await?;
             if done {
                 break;
@@ -545,19 +570,25 @@ impl<T: Qcow2IoOps> Qcow2Dev<T> {
 
     async fn __flush_meta(&self) -> Qcow2Result<()> {
         loop {
-            // refcount is usually small size & continuous, so simply
-            // flush all
-            self.flush_refcount().await?;
-
-            // read lock prevents update on l1 table, meantime
-            // normal read and cache-hit write can go without any
-            // problem
+            // read lock prevents update on l1 table (no new l2 table
+            // can appear), meantime normal read and cache-hit write can
+            // go without any problem
             #[cfg(qcow2_rs_verif)]
             crate::verif::probe("flush_meta:wait-l1-read");
             let l1 = &*self.l1table.read().await;
 
+            // refcount is usually small size & continuous, so simply
+            // flush all; with the l1 table locked this covers every l2
+            // table which the l1 block written below points to
+            self.flush_refcount().await?;
+
             let done = self
-                .flush_meta_generic(l1, &self.l2cache, |off| self.l2_slice_key_of_l1_off(off))
+                .flush_meta_generic(
+                    l1,
+                    &self.l2cache,
+                    |off| self.l2_slice_key_of_l1_off(off),
+                    true,
+                )
                 .await?;
             if done {
                 break;
